@@ -246,6 +246,10 @@ class DefaultOpenFlowHandlers (OpenFlowHandlers):
     con.features = msg
     con.original_ports._ports = set(msg.ports)
     con.ports._reset()
+    if con.dpid != msg.datapath_id:
+      # The switch reports another DPID: drop the registration under the
+      # old one before registering under the new one
+      con.ofnexus._disconnect(con.dpid, con)
     con.dpid = msg.datapath_id # Check this
 
     con.ofnexus._connect(con) #FIXME: Should this be here?
